@@ -30,6 +30,7 @@ import (
 	"math/rand"
 	"os"
 	"sort"
+	"strconv"
 	"strings"
 
 	"github.com/hashicorp/go-hclog"
@@ -142,10 +143,13 @@ type cutStats struct {
 	// secretCombos: cuts at which some peering (accepting / dialing) held exactly this combination
 	// of establishment, pending and active secrets
 	secretCombos map[string]int
+	// witnessCuts: cuts at which each finding's witness predicate held on the donor
+	witnessCuts       map[string]int
+	deferred, chained int
 }
 
 func newCutStats() *cutStats {
-	return &cutStats{donorTables: map[string]int{}, restoredTables: map[string]int{}, secretCombos: map[string]int{}}
+	return &cutStats{donorTables: map[string]int{}, restoredTables: map[string]int{}, secretCombos: map[string]int{}, witnessCuts: map[string]int{}}
 }
 
 // secretCombos: per peering-secrets row of the store, which secrets it holds.
@@ -182,68 +186,6 @@ func secretCombos(st *state.Store) []string {
 			c += "A"
 		}
 		out = append(out, c)
-	}
-	return out
-}
-
-// compareDumps: strict equality, else lenient equality (known deviations), else violation.
-func compareDumps(cut int, stage string, a, b *fullDump, relax bool) []Failure {
-	var out []Failure
-	sd := diffTables(a.strict, b.strict)
-	if len(sd) == 0 {
-		return nil
-	}
-	ld := diffTables(a.lenient, b.lenient)
-	for _, d := range ld {
-		if d.Table == "index" {
-			// one failure per differing index row
-			for _, key := range diffIndexKeys(a.lenient["index"], b.lenient["index"]) {
-				if relax && strings.Contains(indexKeyClass(key), "service.<name>") {
-					out = append(out, Failure{Cut: cut, Stage: stage, Signature: map[string]any{"kind": maskKind[mCheckRefresh]},
-						Detail: "index table row " + key + " (a check with stale service fields was deleted or rewritten after the cut)", Tables: []tableDiff{d}})
-					continue
-				}
-				out = append(out, Failure{Cut: cut, Stage: stage, Signature: map[string]any{"kind": "index-row-differs", "key": indexKeyClass(key)},
-					Detail: "index table row " + key + " differs after restore", Tables: []tableDiff{d}})
-			}
-			continue
-		}
-		out = append(out, Failure{Cut: cut, Stage: stage, Signature: map[string]any{"kind": "table-differs", "table": d.Table},
-			Detail: "canonical dump of table " + d.Table + " differs (" + stage + ")", Tables: []tableDiff{d}})
-	}
-	// strict-only differences: a known deviation, by table
-	lenBad := map[string]bool{}
-	for _, d := range ld {
-		lenBad[d.Table] = true
-	}
-	for _, d := range sd {
-		if lenBad[d.Table] {
-			continue
-		}
-		if d.Table == "index" {
-			for _, key := range diffIndexKeys(a.strict["index"], b.strict["index"]) {
-				kind := "index-row-differs"
-				if m := indexRowMask(strings.SplitN(key, "(", 2)[0]); m != 0 {
-					kind = maskKind[m]
-				}
-				out = append(out, Failure{Cut: cut, Stage: stage, Signature: map[string]any{"kind": kind}, Detail: "index table row " + key, Tables: []tableDiff{d}})
-			}
-			continue
-		}
-		m, ok := tableMask[d.Table]
-		if !ok {
-			out = append(out, Failure{Cut: cut, Stage: stage, Signature: map[string]any{"kind": "table-differs", "table": d.Table},
-				Detail: "strict rendering differs although lenient is equal (unexpected table)", Tables: []tableDiff{d}})
-			continue
-		}
-		if m2, ok2 := tableMask2[d.Table]; ok2 && d.NDonor != d.NOther {
-			m = m2
-		}
-		f := Failure{Cut: cut, Stage: stage, Signature: map[string]any{"kind": maskKind[m]}, Detail: "table " + d.Table, Tables: []tableDiff{d}}
-		if d.Table == "usage" {
-			f.Extra = map[string]string{"donor": strings.Join(a.usageRaw, "; "), "restored": strings.Join(b.usageRaw, "; ")}
-		}
-		out = append(out, f)
 	}
 	return out
 }
@@ -298,102 +240,85 @@ func indexKeyClass(k string) string {
 	return k
 }
 
-func compareQueries(cut int, stage string, a, b []queryResult, relax bool) []Failure {
-	var out []Failure
-	if len(a) != len(b) {
-		return []Failure{{Cut: cut, Stage: stage, Signature: map[string]any{"kind": "query-list-length"}, Detail: "query lists differ in length"}}
-	}
-	known := map[maskSet]string{}
-	bad := 0
-	for i := range a {
-		if a[i].strict == b[i].strict {
-			continue
-		}
-		la, lb := a[i].renderR(mAll, relax), b[i].renderR(mAll, relax)
-		if la != lb {
-			bad++
-			if bad <= 4 {
-				out = append(out, Failure{Cut: cut, Stage: stage, Signature: map[string]any{"kind": "query-differs", "query": strings.SplitN(a[i].name, ":", 2)[0]},
-					Detail: "query " + a[i].name, Extra: map[string]string{"donor": clip(la), "restored": clip(lb)}})
-			}
-			continue
-		}
-		// which deviations are needed to explain the difference
-		found := false
-		for _, m := range maskList {
-			if a[i].renderR(mAll&^m, relax) != b[i].renderR(mAll&^m, relax) {
-				found = true
-				if _, ok := known[m]; !ok {
-					known[m] = fmt.Sprintf("query %s: index %d before, %d after restore", a[i].name, a[i].idx, b[i].idx)
-				}
-			}
-		}
-		if !found {
-			// several deviations each suffice: attribute to the first in maskList order
-			for _, m := range maskList {
-				if a[i].renderR(m, relax) == b[i].renderR(m, relax) {
-					if _, ok := known[m]; !ok {
-						known[m] = fmt.Sprintf("query %s: index %d before, %d after restore", a[i].name, a[i].idx, b[i].idx)
-					}
-					break
-				}
-			}
-		}
-	}
-	for _, m := range maskList {
-		if d, ok := known[m]; ok {
-			out = append(out, Failure{Cut: cut, Stage: stage, Signature: map[string]any{"kind": maskKind[m]}, Detail: d})
-		}
-	}
-	return out
+// donorRun applies the whole history to a fresh FSM and records, for every cut, the snapshot
+// bytes, the dump, the query results and the witness, plus every command result.
+type donorRun struct {
+	wit      []*witness // per step: which findings the donor's state at that step can invoke
+	snaps    [][]byte
+	snapErr  []error
+	deferred [][]byte // Persist of a Snapshot() taken at the cut but written only after the whole history ran
+	dumps    []*storeDump
+	queries  [][]queryResult
+	results  []string
 }
 
-// donorRun applies the whole history to a fresh FSM and records, for every cut, the snapshot
-// bytes, the dump and the query results, plus every command result and the final dump.
-type donorRun struct {
-	stale   []bool // per step: the donor holds a check with stale service fields
-	snaps   [][]byte
-	snapErr []error
-	dumps   []*fullDump
-	queries [][]queryResult
-	results []string
-}
+// deferredCut / chainedCut: the cuts at which the two extra cycles run (a third of the cuts each).
+func deferredCut(k int) bool { return k%3 == 1 }
+func chainedCut(k int) bool  { return k%3 == 2 }
 
 func runDonor(cmds []wcmd, cuts map[int]bool, st *cutStats) *donorRun {
 	d := newMachine()
 	defer d.close()
 	r := &donorRun{}
+	var held []raft.FSMSnapshot
+	renamed := false
+	sigs := instanceSigs(d.store())
 	for k := 0; k <= len(cmds); k++ {
-		r.stale = append(r.stale, staleChecks(d.store()))
+		r.wit = append(r.wit, computeWitness(d.store(), renamed))
 		if st != nil {
 			for _, c := range secretCombos(d.store()) {
 				st.secretCombos[c]++
 			}
 		}
+		var hold raft.FSMSnapshot
 		if cuts == nil || cuts[k] || k == len(cmds) {
 			b, err := d.snapshot()
 			r.snaps = append(r.snaps, b)
 			r.snapErr = append(r.snapErr, err)
 			r.dumps = append(r.dumps, dumpStore(d.store()))
 			r.queries = append(r.queries, runQueries(d.store(), uni))
+			if deferredCut(k) && k < len(cmds) && err == nil {
+				hold, _ = d.f.Snapshot()
+			}
 		} else {
 			r.snaps = append(r.snaps, nil)
 			r.snapErr = append(r.snapErr, nil)
 			r.dumps = append(r.dumps, nil)
 			r.queries = append(r.queries, nil)
 		}
+		held = append(held, hold)
 		if k < len(cmds) {
 			data, _ := hex.DecodeString(cmds[k].Data)
 			r.results = append(r.results, canonResult(d.apply(cmds[k].Idx, data)))
 			if st != nil {
 				st.applies++
 			}
+			after := instanceSigs(d.store())
+			renamed = renamed || reRegistered(sigs, after)
+			sigs = after
 		}
+	}
+	// the deferred Persists: the snapshots taken at their cuts are written only now
+	for _, h := range held {
+		var b []byte
+		if h != nil {
+			sink := &bufSink{Buffer: &bytes.Buffer{}}
+			if err := h.Persist(sink); err == nil && !sink.cancelled {
+				b = sink.Bytes()
+			} else {
+				b = []byte("persist-failed")
+			}
+			h.Release()
+		}
+		r.deferred = append(r.deferred, b)
 	}
 	return r
 }
 
 // checkCut restores the snapshot taken at cut k into a fresh FSM, compares, then runs the suffix.
+// On a third of the cuts it also checks that a Persist deferred until the end of the history
+// restores to the same store; on another third it snapshots the RESTORED machine half way through
+// the suffix and restores that into an FSM that already holds state (second generation).
 func checkCut(cmds []wcmd, k int, dr *donorRun, st *cutStats) []Failure {
 	if dr.snapErr[k] != nil {
 		return []Failure{{Cut: k, Stage: "snapshot", Signature: map[string]any{"kind": "snapshot-failed"}, Detail: dr.snapErr[k].Error()}}
@@ -404,10 +329,7 @@ func checkCut(cmds []wcmd, k int, dr *donorRun, st *cutStats) []Failure {
 		return []Failure{{Cut: k, Stage: "restore", Signature: map[string]any{"kind": "restore-failed"}, Detail: err.Error()}}
 	}
 	var out []Failure
-	relax := false
-	for i := k; i < len(dr.stale); i++ {
-		relax = relax || dr.stale[i]
-	}
+	w := dr.wit[k]
 	rd := dumpStore(m.store())
 	if st != nil {
 		st.restores++
@@ -422,44 +344,120 @@ func checkCut(cmds []wcmd, k int, dr *donorRun, st *cutStats) []Failure {
 				st.restoredTables[t]++
 			}
 		}
+		for _, mk := range maskList {
+			if w.has(mk) {
+				st.witnessCuts[maskKind[mk]]++
+			}
+		}
 	}
-	out = append(out, compareDumps(k, "dump", dr.dumps[k], rd, relax)...)
+	out = append(out, compareDumps(k, "dump", dr.dumps[k], rd, w, false)...)
 	rq := runQueries(m.store(), uni)
 	if st != nil {
 		st.queries += len(rq)
 	}
-	out = append(out, compareQueries(k, "query", dr.queries[k], rq, relax)...)
-	// suffix
+	out = append(out, compareQueries(k, "query", dr.queries[k], rq, w, false)...)
+
+	// deferred Persist: the same logical snapshot, written after the donor moved on
+	if k < len(dr.deferred) && dr.deferred[k] != nil {
+		if st != nil {
+			st.deferred++
+		}
+		if !bytes.Equal(dr.deferred[k], dr.snaps[k]) {
+			m3 := newMachine()
+			if err := m3.restore(dr.deferred[k]); err != nil {
+				out = append(out, Failure{Cut: k, Stage: "deferred-persist", Signature: map[string]any{"kind": "deferred-persist-restore-failed"}, Detail: err.Error()})
+			} else if ds := diffTables(rd.strict, dumpStore(m3.store()).strict); len(ds) > 0 {
+				out = append(out, Failure{Cut: k, Stage: "deferred-persist", Signature: map[string]any{"kind": "deferred-persist-differs", "table": ds[0].Table},
+					Detail: "a Snapshot() taken at the cut and persisted after the rest of the history was applied restores to another store than the one persisted at once", Tables: ds})
+			}
+			m3.close()
+		}
+	}
+
+	// suffix; optionally with a second-generation restore half way
+	var m2 *machine
+	var w2 *witness
+	var d2 *storeDump
+	j := -1
+	if chainedCut(k) && k < len(cmds) {
+		j = k + (len(cmds)-k)/2
+	}
+	diverged := false
 	for i := k; i < len(cmds); i++ {
+		if i == j {
+			// second generation: snapshot the restored machine, restore into a used FSM
+			if b2, err := m.snapshot(); err != nil {
+				out = append(out, Failure{Cut: k, Stage: "chained-snapshot", Signature: map[string]any{"kind": "snapshot-failed"}, Detail: err.Error()})
+			} else {
+				m2 = newMachine()
+				defer m2.close()
+				for u := 0; u < 3 && u < len(cmds); u++ {
+					data, _ := hex.DecodeString(cmds[u].Data)
+					m2.apply(cmds[u].Idx, data)
+				}
+				if err := m2.restore(b2); err != nil {
+					out = append(out, Failure{Cut: k, Stage: "chained-restore", Signature: map[string]any{"kind": "restore-failed"}, Detail: err.Error()})
+					m2 = nil
+				} else {
+					if st != nil {
+						st.chained++
+					}
+					w2 = computeWitness(m.store(), true)
+					d2 = dumpStore(m.store())
+					out = append(out, compareDumps(k, "chained-dump", d2, dumpStore(m2.store()), w2, false)...)
+					out = append(out, compareQueries(k, "chained-query", runQueries(m.store(), uni), runQueries(m2.store(), uni), w2, false)...)
+				}
+			}
+		}
 		data, _ := hex.DecodeString(cmds[i].Data)
 		res := canonResult(m.apply(cmds[i].Idx, data))
 		if st != nil {
 			st.applies++
 		}
-		if res != dr.results[i] && strings.Contains(res, "peering secret is already in use") && !strings.HasPrefix(dr.results[i], "error:") {
-			// consequence of the orphan-secret finding: the restore recorded the secret of a row that
-			// outlived its peering as a used UUID, so the restored server refuses a generated secret
-			// with that id (the generator draws secrets from a pool of four; real ids are random
-			// UUIDs). A dialing peer's secret recorded by the restore (repaired by 2c60efb) already
-			// fails the dump comparison at the cut.
-			out = append(out, Failure{Cut: k, Stage: "suffix-result", Signature: map[string]any{"kind": maskKind[mOrphanSecret]},
-				Detail: fmt.Sprintf("command %d (%s) after the cut: accepted by the donor, refused by the restored server", i, cmds[i].Desc),
-				Extra: map[string]string{"donor": clip(dr.results[i]), "restored": clip(res)}})
-			return out
+		if m2 != nil {
+			if res2 := canonResult(m2.apply(cmds[i].Idx, data)); res2 != res {
+				out = append(out, Failure{Cut: k, Stage: "chained-suffix-result", Signature: map[string]any{"kind": "suffix-result-differs", "command": cmds[i].Kind, "generation": 2},
+					Detail: fmt.Sprintf("command %d (%s) after the second-generation restore", i, cmds[i].Desc), Extra: map[string]string{"restored": clip(res), "restored-twice": clip(res2)}})
+				m2 = nil
+			}
 		}
 		if res != dr.results[i] {
-			out = append(out, Failure{Cut: k, Stage: "suffix-result", Signature: map[string]any{"kind": "suffix-result-differs", "command": cmds[i].Kind},
-				Detail: fmt.Sprintf("command %d (%s) after the cut", i, cmds[i].Desc), Extra: map[string]string{"donor": clip(dr.results[i]), "restored": clip(res)}})
+			if w.has(mOrphanSecret) && strings.Contains(res, "peering secret is already in use") && !strings.HasPrefix(dr.results[i], "error:") && usesOrphanSecret(data, w) {
+				// consequence of the orphan-secret finding: the restore recorded the secret of a row
+				// that outlived its peering as a used UUID, and this command proposes that very id
+				out = append(out, Failure{Cut: k, Stage: "suffix-result", Signature: known(mOrphanSecret),
+					Detail: fmt.Sprintf("command %d (%s) after the cut: accepted by the donor, refused by the restored server", i, cmds[i].Desc),
+					Extra: map[string]string{"donor": clip(dr.results[i]), "restored": clip(res)}})
+			} else {
+				out = append(out, Failure{Cut: k, Stage: "suffix-result", Signature: map[string]any{"kind": "suffix-result-differs", "command": cmds[i].Kind},
+					Detail: fmt.Sprintf("command %d (%s) after the cut", i, cmds[i].Desc), Extra: map[string]string{"donor": clip(dr.results[i]), "restored": clip(res)}})
+			}
+			// the two stores took different paths: comparing them further only repeats this
+			diverged = true
 			break
 		}
 	}
-	if k < len(cmds) {
+	if k < len(cmds) && !diverged {
 		fd := dumpStore(m.store())
-		out = append(out, compareDumps(k, "suffix-dump", dr.dumps[len(cmds)], fd, relax)...)
+		out = append(out, compareDumps(k, "suffix-dump", dr.dumps[len(cmds)], fd, w, true)...)
 		fq := runQueries(m.store(), uni)
-		out = append(out, compareQueries(k, "suffix-query", dr.queries[len(cmds)], fq, relax)...)
+		out = append(out, compareQueries(k, "suffix-query", dr.queries[len(cmds)], fq, w, true)...)
+		if m2 != nil {
+			out = append(out, compareDumps(k, "chained-suffix-dump", fd, dumpStore(m2.store()), w2, true)...)
+			out = append(out, compareQueries(k, "chained-suffix-query", fq, runQueries(m2.store(), uni), w2, true)...)
+		}
 	}
 	return out
+}
+
+// usesOrphanSecret: the command's payload carries one of the orphan rows' secret ids.
+func usesOrphanSecret(data []byte, w *witness) bool {
+	for q := range w.orphanIDs {
+		if id, err := strconv.Unquote(q); err == nil && bytes.Contains(data, []byte(id)) {
+			return true
+		}
+	}
+	return false
 }
 
 func sigKey(f Failure) string {
@@ -587,6 +585,9 @@ type Summary struct {
 	ProjectedFields  []string       `json:"projected_fields"`
 	SelfTestDetected bool           `json:"self_test_detected"`
 	SecretCombos     map[string]int `json:"peering_secret_combinations_at_cuts"`
+	WitnessCuts      map[string]int `json:"witness_holds_at_cuts"`
+	DeferredPersists int            `json:"deferred_persist_cycles"`
+	ChainedRestores  int            `json:"chained_restore_cycles"`
 }
 
 func main() {
@@ -725,7 +726,7 @@ func main() {
 
 	// table coverage
 	sum := Summary{Mode: "summary", Tables: state.VerifC02TableNames(), DonorTables: st.donorTables, RestoredTables: st.restoredTables,
-		SecretCombos: st.secretCombos,
+		SecretCombos: st.secretCombos, WitnessCuts: st.witnessCuts, DeferredPersists: st.deferred, ChainedRestores: st.chained,
 		Restores: st.restores, Applies: st.applies, RowsCompared: st.rows, QueriesCompared: st.queries, ProjectedFields: projectedNotes,
 		NeverRestored: []string{}, NeverPopulated: []string{}}
 	for _, t := range sum.Tables {
